@@ -119,7 +119,7 @@ pub fn judge(_part: &str, case: &Case, tally: &mut Tally) -> Verdict {
 }
 
 /// incl. the boundary code points U+00A0 (first non-C1, also White_Space), U+00A1, U+D7FF, U+E000, U+FFFD, U+10FFFF
-const CHARS: [char; 32] = ['a', 'b', 'c', 'x', 'y', 'z', 'A', 'Z', '0', '9', '!', '~', '`', 'q', ' ', ' ', 'é', 'ß', '世', '界', '─', '│', '😀', '\u{a1}', '\u{a0}', '\u{a0}', '\u{d7ff}', '\u{e000}', '\u{fffd}', '\u{10ffff}', '\u{3000}', '\u{2003}'];
+const CHARS: [char; 36] = ['\u{301}', '\u{200b}', '\u{200d}', '\u{fe0f}', 'a', 'b', 'c', 'x', 'y', 'z', 'A', 'Z', '0', '9', '!', '~', '`', 'q', ' ', ' ', 'é', 'ß', '世', '界', '─', '│', '😀', '\u{a1}', '\u{a0}', '\u{a0}', '\u{d7ff}', '\u{e000}', '\u{fffd}', '\u{10ffff}', '\u{3000}', '\u{2003}'];
 
 pub fn gen_line(src: &mut Src, w: usize) -> String {
     let len = match src.below(12) {
